@@ -52,3 +52,156 @@ def run_filter_program(prog, trace_id, keep_state=True):
 def program_to_json(prog):
     return {"cfg": prog.cfg, "seed": prog.seed, "steps": [list(s) for s in prog.steps],
             "focus": getattr(prog, "focus", "")}
+
+
+# ---------------------------------------------------------------------------------------------
+# plugin layer
+# ---------------------------------------------------------------------------------------------
+DEFAULT_XG = {"G4": "exclude", "M204": "merge", "M205": "merge", "M117": "last", "M73": "merge"}
+
+
+def region_from_dict(data):
+    from harness.rig import nat
+    if data.get("type") == "CircularRegion":
+        return {"t": "circ", "id": str(data.get("id")), "a": nat(data["cx"]), "b": nat(data["cy"]),
+                "c": nat(data["r"]), "d": 0}
+    return {"t": "rect", "id": str(data.get("id")), "a": nat(data["x1"]), "b": nat(data["y1"]),
+            "c": nat(data["x2"]), "d": nat(data["y2"])}
+
+
+def _store_records(store, g90e):
+    """Contract form and model form of the stored settings."""
+    cf = {"g90e": bool(g90e), "enter": list(store["enter"]), "exit": list(store["exit"]),
+          "xg": dict(store["xg"]), "clearAfter": bool(store["clearAfter"]),
+          "mayShrink": bool(store["mayShrink"])}
+    cfx = {"enter": [alpha_cmd(x, {"kind": "txt"}) for x in store["enter"]],
+           "exit": [alpha_cmd(x, {"kind": "txt"}) for x in store["exit"]]}
+    return cf, cfx
+
+
+def run_plugin_history(hist, trace_id, keep_state=True):
+    """Execute a history on a fresh PluginRig; return the trace record."""
+    from harness.rig import PluginRig, alpha_region, nat, result_shape
+    rig = PluginRig(g90e=hist.g90e)
+    rig.notifications()
+    plugin = rig.plugin
+    store = {"clearAfter": False, "mayShrink": False, "enter": [], "exit": [],
+             "xg": dict(DEFAULT_XG)}
+    cf0, cfx0 = _store_records(store, hist.g90e)
+    events = []
+
+    def common_fields(event, before):
+        state = alpha_state(plugin.state)
+        event["same"] = (before == state)
+        event["rl"] = [alpha_region(r) for r in plugin.state.excludedRegions]
+        event["notes"] = [[region_from_dict(r) for r in note.get("excluded_regions", [])]
+                          for note in rig.notifications()]
+        event["pst"] = {"active": bool(plugin.isActivePrintJob),
+                        "clearAfter": bool(plugin.clearRegionsAfterPrintFinishes),
+                        "mayShrink": bool(plugin.mayShrinkRegionsWhilePrinting)}
+        if keep_state:
+            event["st"] = state
+        event.setdefault("exc", "")
+        event.setdefault("shape", True)
+        return event
+
+    for step in hist.steps:
+        before = alpha_state(plugin.state)
+        kind = step[0]
+        if kind == "set":
+            rig.set_setting(step[1], step[2])
+            key = {"clearRegionsAfterPrintFinishes": "clearAfter",
+                   "mayShrinkRegionsWhilePrinting": "mayShrink",
+                   "enteringExcludedRegionGcode": "enter",
+                   "exitingExcludedRegionGcode": "exit",
+                   "extendedExcludeGcodes": "xg"}[step[1]]
+            store[key] = step[3] if key in ("enter", "exit", "xg") else step[2]
+            cf, cfx = _store_records(store, hist.g90e)
+            event = {"ev": "set", "store": cf, "storex": cfx}
+        elif kind == "pev":
+            event = {"ev": "pev", "name": step[1]}
+            try:
+                rig.event(step[1])
+            except Exception as err:  # pylint: disable=broad-except
+                event["exc"] = type(err).__name__
+        elif kind == "g":
+            event = {"ev": "g", "in": alpha_cmd(step[1], step[2] if len(step) > 2 else None)}
+            try:
+                result = rig.gcode_hook(step[1])
+                res, out, shape = result_shape(result, rig.ignore)
+            except Exception as err:  # pylint: disable=broad-except
+                res, out, shape = "exc", [], False
+                event["exc"] = type(err).__name__
+            event.update({"res": res, "out": [alpha_cmd(x) for x in out], "shape": shape})
+            from harness.rig import octo_gcode
+            event["hascode"] = octo_gcode(step[1])[0] is not None
+        elif kind == "at":
+            streaming = step[3] if len(step) > 3 else False
+            from harness.rig import DEFAULT_AT
+            import re as _re
+            acts = []
+            if not streaming:
+                for cmd, pattern, action in DEFAULT_AT:
+                    if cmd == step[1] and _re.compile(pattern).match(step[2] or ""):
+                        acts.append("enable" if action == "enable_exclusion" else "disable")
+            event = {"ev": "at", "in": {"txt": "@" + step[1] + " " + step[2], "acts": acts,
+                                        "streaming": bool(streaming)}}
+            try:
+                sent = rig.at_hook(step[1], step[2], streaming)
+                res = "list" if sent else "suppress"
+            except Exception as err:  # pylint: disable=broad-except
+                sent, res = [], "exc"
+                event["exc"] = type(err).__name__
+            event.update({"res": res, "out": [alpha_cmd(str(x)) for x in sent]})
+        elif kind == "hook":
+            event = {"ev": "hook", "stype": step[1], "sname": step[2]}
+            try:
+                result = rig.script_hook(step[1], step[2])
+                if result is None:
+                    res, out = "none", []
+                else:
+                    prefix = result[0] if isinstance(result, tuple) else result
+                    out = [str(x) for x in (prefix or [])]
+                    res = "list" if out else "none"
+            except Exception as err:  # pylint: disable=broad-except
+                res, out = "exc", []
+                event["exc"] = type(err).__name__
+            event.update({"res": res, "out": [alpha_cmd(x) for x in out]})
+        elif kind == "api":
+            command, data, anon = step[1], step[2], step[3]
+            typ = {"RectangularRegion": "rect", "CircularRegion": "circ"}.get(data.get("type"),
+                                                                              "bad")
+            cmd = {"addExcludeRegion": "add", "updateExcludeRegion": "update",
+                   "deleteExcludeRegion": "delete"}.get(command, "other")
+            raw = [0, 0, 0, 0]
+            if typ == "rect":
+                raw = [nat(data["x1"]), nat(data["y1"]), nat(data["x2"]), nat(data["y2"])]
+            elif typ == "circ":
+                raw = [nat(data["cx"]), nat(data["cy"]), nat(data["r"]), 0]
+            event = {"ev": "api", "cmd": cmd, "anon": bool(anon),
+                     "typ": typ if cmd != "delete" else "none",
+                     "id": str(data.get("id")) if data.get("id") is not None else "",
+                     "hasId": data.get("id") is not None,
+                     "a": raw[0], "b": raw[1], "c": raw[2], "d": raw[3]}
+            try:
+                response = rig.api(command, data, anon)
+                event["status"] = 0 if response is None else int(response[1])
+            except Exception as err:  # pylint: disable=broad-except
+                event["status"] = -1
+                event["exc"] = type(err).__name__
+        elif kind == "get":
+            event = {"ev": "get"}
+            payload = rig.api_get()
+            event["got"] = [region_from_dict(r) for r in payload.get("excluded_regions", [])]
+        else:
+            raise ValueError("unknown step %r" % (step,))
+        events.append(common_fields(event, before))
+        if kind == "get":
+            events[-1]["rl"] = events[-1].pop("got")
+    return {"id": trace_id, "active0": False, "q": Q_TRACE, "tol": TOL_TRACE,
+            "cf": cf0, "cfx": cfx0, "ev": events}
+
+
+def history_to_json(hist):
+    return {"seed": hist.seed, "g90e": hist.g90e, "focus": getattr(hist, "focus", ""),
+            "steps": [list(s) for s in hist.steps]}
